@@ -223,8 +223,9 @@ theorem Opt.history_refines_spec (F : Fns K) (h : List (Op K)) (s : State K) (hI
 theorem Opt.history_invariant (F : Fns K) (h : List (Op K)) (s : State K) (hI : Inv1 s) :
     Inv1 (run (exec F) h s).1 := Inv1_run F h s hI
 
-example : Inv1 ({ o := { kind := .SGD, fields := [1 / 2], base := Base.init, reg := [] },
-    ps := [{ valid := true, value := [1], grad := [0], stats := [] }] } : State ℚ) := by
+example : Inv1 (
+    { o := { kind := .SGD, fields := [1 / 2], base := Base.init, reg := [] },
+      ps := [{ valid := true, value := [1], grad := [0], stats := [] }] } : State ℚ) := by
   refine ⟨by decide, Or.inr ?_⟩
   simp [valids]
 
